@@ -275,7 +275,11 @@ class BILP(Problem):
         if not isinstance(solution, np.ndarray):
             solution = self.convert_solution(solution, spin)
 
-        return np.allclose(
-            self._S @ np.array([solution]).T,
-            np.array([self._b]).T
-        )
+        lhs = self._S @ np.array([solution]).T
+        rhs = np.array([self._b]).T
+        if (np.issubdtype(lhs.dtype, np.integer) and
+                np.issubdtype(rhs.dtype, np.integer)):
+            # integer data: no tolerance (allclose accepts
+            # |Sx - b| <= 1e-5 |b|)
+            return bool(np.array_equal(lhs, rhs))
+        return np.allclose(lhs, rhs)
